@@ -18,16 +18,17 @@ def key_of(vector, r, x):
     return "C17:unpredicted:%s.%s:%s:%s:%s" % (r["w"], r["cls"], r["entry"], x["what"], x["against"])
 
 
-def names_cfg(mode, depth, upd):
+def names_cfg(mode, depth, upd, vals="small"):
     inv = ("TypeOK NoErase ChangeIff Idempotent OnlyNamed ExportPairs" if mode == "pairs"
            else "TypeOK C17_NoErase C17_DirtyIff C17_MacCopy ExportHosts")
-    return ("SPECIFICATION Spec\nCONSTANTS\n  Mode = \"%s\"\n  MaxDepth = %d\n  UpdSet = \"%s\"\nINVARIANTS %s\nCHECK_DEADLOCK FALSE\n"
-            % (mode, depth, upd, inv))
+    return ("SPECIFICATION Spec\nCONSTANTS\n  Mode = \"%s\"\n  MaxDepth = %d\n  UpdSet = \"%s\"\n  ValSet = \"%s\"\nINVARIANTS %s\nCHECK_DEADLOCK FALSE\n"
+            % (mode, depth, upd, vals, inv))
 
 
 def run_names(ctx, binary):
     cov = {}
-    rp = vlib.tlc(ctx, "Names", cfg="np.cfg", files={"np.cfg": names_cfg("pairs", 0, "small")}, workers=2, timeout=600, heap="4g",
+    vals = "small" if ctx.quick else "full"          # {"", a, A, b} / plus "a." (trailing dot)
+    rp = vlib.tlc(ctx, "Names", cfg="np.cfg", files={"np.cfg": names_cfg("pairs", 0, "small", vals)}, workers=4, timeout=900, heap="6g",
                   jprops={"tlc2.tool.queue.IStateQueue": "MemStateQueue"}, keep_out=False)
     if not rp.ok:
         raise vlib.InfraError("TLC Names/pairs: model-level failure (violated=%s error=%s)\n%s" % (rp.violated, rp.error, rp.out[-2000:]))
@@ -38,7 +39,7 @@ def run_names(ctx, binary):
     if not rh.ok:
         raise vlib.InfraError("TLC Names/hosts: model-level failure (violated=%s error=%s)\n%s" % (rh.violated, rh.error, rh.out[-2000:]))
     hists = [x for x in rh.json if isinstance(x, list)]
-    if len(pairs) != 6561 or not hists:
+    if len(pairs) != (65536 if ctx.quick else 390625) or not hists:
         raise vlib.InfraError("Names export incomplete: %d pairs, %d histories" % (len(pairs), len(hists)))
     pp, hp, op = [os.path.join(ctx.scratch, n) for n in ("pairs.ndjson", "hosts.ndjson", "names_out.ndjson")]
     vlib.write_ndjson(pp, pairs)
@@ -68,7 +69,12 @@ def run(ctx):
     groups = collections.OrderedDict()
     for r in results:
         if r["outcome"] != "ret":
-            continue                                   # panics and hangs are property C08
+            # "rejected with an error" / "decode as a reference decoder": a call that panics or never returns does
+            # neither (the same failure is also reported by C08)
+            if r["outcome"] in ("panic", "hang", "killed") and not r.get("mut"):
+                x = {"what": r["outcome"], "against": "spec", "want": "a result", "got": "%s at %s %s" % (r["outcome"], r.get("site"), r.get("msg") or ""), "strict": True}
+                groups.setdefault(key_of(vectors[r["v"]], r, x), []).append((r, x))
+            continue
         for x in r.get("cmp", []):
             groups.setdefault(key_of(vectors[r["v"]], r, x), []).append((r, x))
     unrepro = {}
@@ -76,7 +82,8 @@ def run(ctx):
         confirmed = None
         for r, x in rs[:3]:
             again = wc.run_one(ctx, binary, vectors[r["v"]], r["c"], k, 0)
-            if any(y["what"] == x["what"] and y["against"] == x["against"] and y["strict"] for y in again.get("cmp", [])):
+            if again.get("outcome") == x["what"] or \
+               any(y["what"] == x["what"] and y["against"] == x["against"] and y["strict"] for y in again.get("cmp", [])):
                 confirmed = (r, x)
                 break
         if confirmed is None:
@@ -116,7 +123,7 @@ def run(ctx):
                 "count corruption) and NBNS node status arrays of spec/Walk.tla with the reference verdict and value; each vector "
                 "is K concrete encodings by the harness encoder and, when well-formed, a second encoding by the x/net dnsmessage "
                 "Builder with compression; results compared with the reference value and with dnsmessage's parse of the same "
-                "bytes. merge: all 6561 pairs and all update/notify histories of length 3 of spec/Names.tla on real "
+                "bytes. merge: all pairs over the values {\"\", a, A, b} (65536; thorough adds \"a.\") and all update/notify histories of length 3 of spec/Names.tla on real "
                 "NameEntry/Host objects. distinct_nontrivial = distinct non-empty vectors + pairs + histories",
         "samples": wc.sample_cases(vectors, [r for r in results if r.get("cmp")]),
         "exhaustive": False,
@@ -153,6 +160,10 @@ def replay(ctx, path):
         print("not reproduced")
         return 0
     again = wc.run_one(ctx, binary, rp["vector"], rp["c"], rp["k"], rp["mut"])
+    if again.get("outcome") == rp["expect"]:
+        print("VIOLATION property=%s replay=%s" % (ctx.pid, path))
+        print("  %s: %s at %s" % (again.get("entry"), again.get("outcome"), again.get("site")))
+        return 1
     for y in again.get("cmp", []):
         if y["what"] == rp["expect"] and y["strict"]:
             print("VIOLATION property=%s replay=%s" % (ctx.pid, path))
